@@ -510,14 +510,19 @@ impl HybSim {
     fn settle(&self) {
         let rt = self.rt.as_ref().unwrap();
         rt.block_on(async {
+            // Quiescent = the runtime has no runnable task (run queue and injection queue empty on consecutive
+            // yields; tokio's unstable metrics) and the simulated device saw no new call meanwhile. A fixed number of
+            // "quiet" yields alone misjudges long hand-off chains between foyer tasks that touch no device.
+            let metrics = tokio::runtime::Handle::current().metrics();
             let mut quiet = 0;
             let mut last = self.disk.progress();
-            for _ in 0..4000 {
+            for _ in 0..200_000 {
                 tokio::task::yield_now().await;
                 let p = self.disk.progress();
-                if p == last {
+                let runnable = metrics.worker_local_queue_depth(0) + metrics.global_queue_depth();
+                if p == last && runnable == 0 {
                     quiet += 1;
-                    if quiet >= 48 {
+                    if quiet >= 4 {
                         break;
                     }
                 } else {
